@@ -330,3 +330,50 @@ Example C01_stable_nonvacuous :
 Proof.
   cbv zeta. split; [eexists; vm_compute; reflexivity|]. repeat split; vm_compute; reflexivity.
 Qed.
+
+(* ---------------------------------------------------------------------------------------------------------
+   "Each request is answered with the outcome class that this model predicts": tie T between the handler model and
+   the do_ methods of radicale/app at the level of outcome codes.  Gen/Skeleton.v is regenerated from the source on
+   every run; the sequence of its return sites per method must equal the recorded one (Proofs/HandlersSkel.v,
+   lemmas Gen_rets_X -- a change that adds, removes or reorders an outcome breaks one of them).
+   --------------------------------------------------------------------------------------------------------- *)
+Require RV.Proofs.HandlersSkel.
+Import RV.Proofs.HandlersSkel.
+
+(* for all stores, policies, configurations and requests the model answers with one of these codes ... *)
+Theorem C01_outcome_codes_sound :
+  (forall cfg pol s p im, In (code_of (fst (snd (do_delete cfg pol s p im)))) delete_codes)
+  /\ (forall pol s p x, In (code_of (fst (snd (do_mkcol pol s p x)))) mkcol_codes)
+  /\ (forall pol s p x, In (code_of (fst (snd (do_mkcalendar pol s p x)))) mkcalendar_codes)
+  /\ (forall pol s p dr dout to ow, In (code_of (fst (snd (do_move pol s p dr dout to ow)))) move_codes)
+  /\ (forall pol s p x, In (code_of (fst (snd (do_proppatch pol s p x)))) proppatch_codes)
+  /\ (forall cfg pol s p ct b im inm, In (code_of (fst (snd (do_put cfg pol s p ct b im inm)))) put_codes)
+  /\ (forall pol s p, In (code_of (fst (do_get pol s p))) get_codes)
+  /\ (forall pol s p d, In (code_of (fst (do_propfind pol s p d))) propfind_codes)
+  /\ (forall pol s p cal hs, In (code_of (fst (do_multiget pol s p cal hs))) multiget_codes).
+Proof.
+  exact (conj delete_codes_sound (conj mkcol_codes_sound (conj mkcalendar_codes_sound (conj move_codes_sound
+        (conj proppatch_codes_sound (conj put_codes_sound (conj get_codes_sound (conj propfind_codes_sound multiget_codes_sound)))))))).
+Qed.
+Print Assumptions C01_outcome_codes_sound.
+
+(* ... each of which is a return site of the real method, and what the real method returns beyond them is an
+   environment failure the model does not cover (400 unreadable body, 408 time-out, 500, 507 disk full) ... *)
+Theorem C01_outcome_codes_tied :
+  tied RV.Gen.Skeleton.sk_do_DELETE delete_codes = true /\ tied RV.Gen.Skeleton.sk_do_MKCOL mkcol_codes = true
+  /\ tied RV.Gen.Skeleton.sk_do_MKCALENDAR mkcalendar_codes = true /\ tied RV.Gen.Skeleton.sk_do_MOVE move_codes = true
+  /\ tied RV.Gen.Skeleton.sk_do_PROPPATCH proppatch_codes = true /\ tied RV.Gen.Skeleton.sk_do_PUT put_codes = true
+  /\ tied RV.Gen.Skeleton.sk_do_GET get_codes = true /\ tied RV.Gen.Skeleton.sk_do_PROPFIND propfind_codes = true
+  /\ tied RV.Gen.Skeleton.sk_do_REPORT multiget_codes = true.
+Proof. exact codes_tied_to_code. Qed.
+Print Assumptions C01_outcome_codes_tied.
+
+(* ... and each of which the model produces on some input (non-vacuity of the code lists; PUT's 500 excepted). *)
+Theorem C01_outcome_codes_reached : forall c, In c delete_codes ->
+  exists cfg pol p im, code_of (fst (snd (do_delete cfg pol sA p im))) = c.
+Proof.
+  intros c Hc. destruct (reached_spec _ _ c (proj1 codes_reached) Hc) as (st & Hin & He).
+  apply in_map_iff in Hin. destruct Hin as ([[[cfg pol] p] im] & Hst & _). exists cfg, pol, p, im. cbn [fst snd] in Hst.
+  rewrite Hst. exact He.
+Qed.
+Print Assumptions C01_outcome_codes_reached.
